@@ -34,7 +34,7 @@ from octave_mcp.core.ast_nodes import (
 from octave_mcp.core.emitter import emit
 from octave_mcp.core.gbnf_compiler import GBNFCompiler
 from octave_mcp.core.hydrator import resolve_hermetic_standard
-from octave_mcp.core.lexer import LexerError, tokenize
+from octave_mcp.core.lexer import FENCE_PATTERN, LexerError, tokenize
 from octave_mcp.core.parser import ParserError, parse, parse_with_warnings
 from octave_mcp.core.repair import repair
 from octave_mcp.core.repair_log import LiteralZoneRepairLog
@@ -183,21 +183,26 @@ class WriteTool(BaseTool):
         protected: list[tuple[int, int]] = []
 
         # Find literal zone boundaries (``` fences)
+        # Same fence rule as the lexer: a zone opened with N backticks is closed
+        # only by a line of exactly N backticks; shorter runs inside are content.
         in_fence = False
         fence_start = 0
+        fence_len = 0
         offset = 0
         for line in content.split("\n"):
             line_start = offset
             offset += len(line) + 1  # +1 for the newline separator
-            stripped = line.strip()
-            if stripped.startswith("```"):
-                if not in_fence:
-                    in_fence = True
-                    fence_start = line_start
-                else:
-                    in_fence = False
-                    fence_end = line_start + len(line)
-                    protected.append((fence_start, fence_end))
+            fence_match = FENCE_PATTERN.match(line)
+            if fence_match is None:
+                continue
+            if not in_fence:
+                in_fence = True
+                fence_start = line_start
+                fence_len = len(fence_match.group(3))
+            elif len(fence_match.group(3)) == fence_len and not (fence_match.group(4) or "").strip():
+                in_fence = False
+                fence_end = line_start + len(line)
+                protected.append((fence_start, fence_end))
 
         # If fence was never closed, protect from fence_start to end
         if in_fence:
